@@ -1,6 +1,7 @@
-import LunaVerif.Model.Device.FullProto
-open LunaVerif LunaVerif.Proto LunaVerif.Device.Full.Proto
+import LunaVerif.Model.Device.DevCycProto
+open LunaVerif LunaVerif.Proto LunaVerif.DevCyc.Proto
 
-/-- Driver of C20: sub-model 0 = UTMI transmit multiplexer (cycle level), 1 = full-device event model.
-See `LunaVerif/Model/Device/FullProto.lean` for the line formats. -/
-def main : IO Unit := runDriver (σ := DState) dInit dStep
+/-- Driver of C20: sub-model 0 = UTMI transmit multiplexer (cycle level), 1 = full-device event model
+(`LunaVerif/Model/Device/FullProto.lean`), 2 = cycle-level composition of the device's packet layer
+(`LunaVerif/Model/Device/DevCycProto.lean`). -/
+def main : IO Unit := runDriver (σ := D) dInit dStep
